@@ -335,6 +335,9 @@ class Text(Input):
             if rowstr[0] == "#":
                 curr = rowstr[1:]
                 curr = curr.split()
+                if len(curr) == 0:
+                    # An empty comment line
+                    continue
                 if curr[0] == "variable:":
                     self._variable_name = ' '.join(curr[1:])
                 elif curr[0] == "units:":
